@@ -18,8 +18,8 @@ func Configs(thorough bool) []Cfg {
 	mb := stacks.Config{Kind: "mbapp", InnerMTU: 64, MTU: 200}  // part = 40
 	list := []sk{
 		{mem, [][2]int{{0, 64}, {1, 63}}},
-		{frag, [][2]int{{26, 25}, {0, 26}}},
-		{mb, [][2]int{{41, 40}, {0, 80}}},
+		{frag, [][2]int{{26, 25}, {27, 26}}},
+		{mb, [][2]int{{41, 40}, {42, 41}}},
 		{stacks.Config{Kind: "mux-string", InnerMTU: 64}, [][2]int{{0, 50}}},
 		{stacks.Config{Kind: "multi", InnerMTU: 64}, [][2]int{{0, 64}}},
 		{stacks.Config{Kind: "map", InnerMTU: 64}, [][2]int{{3, 64}}},
